@@ -2,6 +2,7 @@ package props
 
 import (
 	"fmt"
+	"go/types"
 	"go/token"
 	"regexp"
 	"sort"
@@ -116,6 +117,9 @@ func C15(p *core.Program, r *core.Report) {
 				}
 				if b, ok := call.Call.Value.(*ssa.Builtin); !ok || b.Name() != "append" || !rootsAt(c, call.Call.Args[0], cand, 0) {
 					return "", false
+				}
+				if c.Of(call.Call.Args[0]) != cand && !flowsToStoreAt(c, call, cand, map[ssa.Value]bool{}) {
+					return "", false // some other local list
 				}
 				el := c.Of(call.Call.Args[1])
 				if el == "{"+mt+"}" {
@@ -423,6 +427,12 @@ func rootsAt(c *core.Canon, v ssa.Value, root string, depth int) bool {
 	if c.Of(v) == root {
 		return true
 	}
+	// a fresh empty list that ends up stored into root: on the paths where root is still empty
+	// (the only ones on which the documented outcome contains additions) building the list in
+	// a local and assigning it is the same as appending to root
+	if emptySlice(v) {
+		return true
+	}
 	switch x := v.(type) {
 	case *ssa.Phi:
 		for _, e := range x.Edges {
@@ -437,6 +447,62 @@ func rootsAt(c *core.Canon, v ssa.Value, root string, depth int) bool {
 	case *ssa.Call:
 		if b, ok := x.Call.Value.(*ssa.Builtin); ok && b.Name() == "append" {
 			return rootsAt(c, x.Call.Args[0], root, depth+1)
+		}
+	}
+	return false
+}
+
+// emptySlice: nil, []T{} or make([]T, 0, ..).
+func emptySlice(v ssa.Value) bool {
+	switch x := v.(type) {
+	case *ssa.Const:
+		_, isSlice := x.Type().Underlying().(*types.Slice)
+		return isSlice && x.IsNil()
+	case *ssa.Slice:
+		if a, ok := x.X.(*ssa.Alloc); ok && x.Low == nil && x.High == nil {
+			if pt, ok := a.Type().Underlying().(*types.Pointer); ok {
+				if at, ok := pt.Elem().Underlying().(*types.Array); ok {
+					return at.Len() == 0
+				}
+			}
+		}
+	case *ssa.MakeSlice:
+		if k, ok := x.Len.(*ssa.Const); ok {
+			n, isInt := k.Int64(), k.Value != nil
+			return isInt && n == 0
+		}
+	}
+	return false
+}
+
+// flowsToStoreAt: the list value v, possibly grown by further appends and merged by phis, is
+// stored into the place `root`.
+func flowsToStoreAt(c *core.Canon, v ssa.Value, root string, seen map[ssa.Value]bool) bool {
+	if seen[v] {
+		return false
+	}
+	seen[v] = true
+	refs := v.Referrers()
+	if refs == nil {
+		return false
+	}
+	for _, in := range *refs {
+		switch x := in.(type) {
+		case *ssa.Store:
+			if x.Val == v && strings.TrimPrefix(c.Of(x.Addr), "&") == root {
+				return true
+			}
+		case *ssa.Phi:
+			if flowsToStoreAt(c, x, root, seen) {
+				return true
+			}
+		case *ssa.Call:
+			if b, ok := x.Call.Value.(*ssa.Builtin); ok && b.Name() == "append" && len(x.Call.Args) > 0 && x.Call.Args[0] == v {
+				if flowsToStoreAt(c, x, root, seen) {
+					return true
+				}
+			}
+		case *ssa.ChangeType, *ssa.MakeInterface:
 		}
 	}
 	return false
